@@ -57,6 +57,8 @@ type Replay struct {
 }
 
 type Stats struct {
+	ClockReads   int64             `json:"clock_reads"`
+	RandDraws    int64             `json:"rand_draws"`
 	Evaluations  int               `json:"evaluations"`
 	Runs         int               `json:"runs"`
 	Steps        uint64            `json:"steps"`
@@ -439,6 +441,8 @@ func runCheck(prop, tier string, only, casesOverride, budgetOverride int) int {
 			a.stats.Runs += s.Runs
 			a.stats.Steps += s.Steps
 			a.stats.Ops += s.Ops
+			a.stats.ClockReads += s.ClockReads
+			a.stats.RandDraws += s.RandDraws
 			for k, v := range s.Faults {
 				a.stats.Faults[k] += v
 			}
@@ -701,7 +705,7 @@ func runCheck(prop, tier string, only, casesOverride, budgetOverride int) int {
 		"seeds":                     seeds,
 		"logical_steps":             a.stats.Steps,
 		"filesystem_and_stream_ops": a.stats.Ops,
-		"simulated_time":            "not applicable: gopatch has no clocks or timers; progress is measured in logical steps (yield points) and environment operations",
+		"simulated_time":            fmt.Sprintf("gopatch has no timers and reads no clock: the simulated clock (time is redirected to sim/simtime, set per run and per process) was read %d times and the package-level random generators (math/rand redirected likewise) were consulted %d times in this run; progress is measured in logical steps (yield points) and environment operations", a.stats.ClockReads, a.stats.RandDraws),
 		"faults_fired":              a.stats.Faults,
 		"probes":                    a.stats.Probes,
 		"required_probes_missing":   missing,
